@@ -7,6 +7,7 @@ from sa.cfg import cfg_of
 from sa.dataflow import call_name, dotted, expand, origins
 from sa.fold import Folder, Unknown
 from sa.layout import WriterExec, fmt_terms
+from sa.interval import ISet
 from sa.loader import AnalysisError, param_names
 
 EXPLANATION = (
@@ -399,17 +400,27 @@ def c05_5(ctx):
             out.append(ctx.err(spec, "dispatch for %s could not be evaluated" % label, fn, mod))
         else:
             out.append(ctx.bad(spec, "a %s input is hashed with %s, expected %s" % (label, got, want), fn, mod, key="dispatch:" + label))
-    # ext_flag from the witness size
+    # ext_flag from the witness size: the value assigned on each edge of the `len(witness) ? c` test must be [len > 1]
     ok = False
+    fo = Folder(ctx.repo, mod.name)
     for n in cfg.tests():
+        r = rl.rel(n.ast, lambda e: "witness" in ast.unparse(e) and "len" in ast.unparse(e), lambda e: isinstance(fo.fold(e), int))
+        if r is None:
+            continue
         t = n.ast
-        if isinstance(t, ast.Compare) and len(t.ops) == 1 and "witness" in ast.unparse(t.left) and "len" in ast.unparse(t.left):
-            c = Folder(ctx.repo, mod.name).fold(t.comparators[0])
-            if isinstance(t.ops[0], ast.Gt) and c == 1 or isinstance(t.ops[0], ast.GtE) and c == 2:
-                for b, l in cfg.succ[n.id]:
-                    a = cfg.nodes[b].ast
-                    if l is True and isinstance(a, ast.Assign) and ast.unparse(a.targets[0]) == "ext_flag" and Folder(ctx.repo, mod.name).fold(a.value) == 1:
-                        ok = True
+        c = fo.fold(t.comparators[0] if isinstance(fo.fold(t.comparators[0]), int) else t.left)
+        # truth of the test for len = 0, 1, 2, 3
+        from sa.interval import cmp_set
+        tset = cmp_set(r, c)
+        vals = {}
+        for b, l in cfg.succ[n.id]:
+            a = cfg.nodes[b].ast
+            if isinstance(a, ast.Assign) and ast.unparse(a.targets[0]) == "ext_flag" and isinstance(fo.fold(a.value), int):
+                vals[l] = fo.fold(a.value)
+        if set(vals) == {True, False}:
+            def flag(k):
+                return vals[not tset.intersect(ISet.point(k)).is_empty()]
+            ok = all(flag(k) == (1 if k > 1 else 0) for k in range(0, 6))
     out.append(ctx.ok(spec, "p2tr: ext_flag = 1 exactly when the witness has more than one item", fn, mod, key="ext-flag") if ok else
                ctx.bad(spec, "p2tr: ext_flag is not derived as `len(witness) > 1`", fn, mod, key="ext-flag"))
     return out
